@@ -206,6 +206,9 @@ pub fn run(args: &Args, r: &mut Report) {
         r.interleavings.insert(run.sig);
         let mut m = Mon::default();
         mon_c06(&run.flow, &mut m, &mut backoffs);
+        // "event reports are sent exactly once": the sequence of reports is the model's, also while a
+        // server-dictated poll interval is in force
+        mon_c10(&run.flow, &mut m);
         if let Some(p) = &run.panicked {
             report_panic(r, args, i, p, &run.w, case_desc(&case));
         }
